@@ -72,7 +72,7 @@ Theorem C09_delegated_needs_live_grant : forall now gs grantee granter kind amou
 Proof. exact use_grant_live. Qed.
 Print Assumptions C09_delegated_needs_live_grant.
 
-From Sge Require Import Model.Orderbook Gen.kernels Proofs.GenKernels.
+From Sge Require Import Model.Orderbook Gen.kernels Proofs.GenOb Proofs.GenSub.
 (* what can be withdrawn: maxWithdrawalAmount / WithdrawableAmount / SetLiquidityAfterWithdrawal are generated from
    x/orderbook/types/participation.go on every run and proved equal to the model's functions *)
 Theorem C09_kernels_generated : forall p mode amount amt,
